@@ -9,7 +9,8 @@ correspondence).  The region structure of every operation is regenerated from th
 
 Quantifiers: any number of threads, any number of stores, any programs of consume / regenerate / convert /
 transfer calls, ANY cut of each operation's region into source lines (`cut`, only required to compose to the
-operation's body), any interleaving of those lines (`Star Step`).
+operation's body), any interleaving of those lines (`Star Step`), and any `on_state_change` observers (`obs j` for store
+`j`: called inside the region, may raise — the call then raises after its mutations, and every theorem still holds).
 -/
 namespace Operon.AtpConc
 open Operon.Lock Operon.Atp
@@ -32,11 +33,11 @@ theorem c05_shapes_wellLocked :
     configuration reached (no lock held — in particular the final one) is reached by executing the critical regions
     one after the other, each thread's regions in its own order: same stores, same per-thread return values, same
     remaining work. -/
-theorem c05_serializable (cls : Classifier) (cut : Cut) (hc : cut.Faithful cls) (ac0 : ACfg)
+theorem c05_serializable (cls : Classifier) (obs : Nat → Obs) (cut : Cut) (hc : cut.Faithful cls obs) (ac0 : ACfg)
     (c : Cfg Loc Store) (hs : Star Step (ac0.toRCfg cut).toCfg c) (hq : c.quiescent) :
-    ∃ ac, c = (ac.toRCfg cut).toCfg ∧ Star (ActStep cls) ac0 ac := by
+    ∃ ac, c = (ac.toRCfg cut).toCfg ∧ Star (ActStep cls obs) ac0 ac := by
   obtain ⟨rc, rfl, hr⟩ := serializable_regions (ac0.toRCfg cut) c hs hq
-  obtain ⟨ac, rfl, ha⟩ := rstar_actstar cls cut hc ac0 rc hr
+  obtain ⟨ac, rfl, ha⟩ := rstar_actstar cls obs cut hc ac0 rc hr
   exact ⟨ac, rfl, ha⟩
 
 /-- **The same, with the order made explicit.**  There is a trace `tr` — a list of (thread, action) pairs — such that
@@ -44,16 +45,16 @@ theorem c05_serializable (cls : Classifier) (cut : Cut) (hc : cut.Faithful cls) 
     the trace is an interleaving of the threads' programs in which no action is lost, duplicated or reordered;
     (ii) the stores and every thread's return values are those of the sequential reference `runTrace`, which applies
     the C04 region bodies one after the other in trace order. -/
-theorem c05_final_state_is_sequential_run (cls : Classifier) (cut : Cut) (hc : cut.Faithful cls) (ac0 : ACfg)
+theorem c05_final_state_is_sequential_run (cls : Classifier) (obs : Nat → Obs) (cut : Cut) (hc : cut.Faithful cls obs) (ac0 : ACfg)
     (c : Cfg Loc Store) (hs : Star Step (ac0.toRCfg cut).toCfg c) (hq : c.quiescent) :
     ∃ ac tr, c = (ac.toRCfg cut).toCfg ∧
       (∀ t, proj t tr ++ todoAt ac t = todoAt ac0 t) ∧
-      ac.st = (runTrace cls ⟨ac0.st, locAt ac0⟩ tr).st ∧
-      (∀ t, t < ac.threads.length → locAt ac t = (runTrace cls ⟨ac0.st, locAt ac0⟩ tr).locs t) := by
-  obtain ⟨ac, hceq, hstar⟩ := c05_serializable cls cut hc ac0 c hs hq
-  obtain ⟨tr, hrun⟩ := actstar_run cls ac0 ac hstar
-  exact ⟨ac, tr, hceq, (actrun_proj cls ac0 ac tr hrun).2, (actrun_runTrace cls ac0 ac tr hrun).1,
-    (actrun_runTrace cls ac0 ac tr hrun).2⟩
+      ac.st = (runTrace cls obs ⟨ac0.st, locAt ac0⟩ tr).st ∧
+      (∀ t, t < ac.threads.length → locAt ac t = (runTrace cls obs ⟨ac0.st, locAt ac0⟩ tr).locs t) := by
+  obtain ⟨ac, hceq, hstar⟩ := c05_serializable cls obs cut hc ac0 c hs hq
+  obtain ⟨tr, hrun⟩ := actstar_run cls obs ac0 ac hstar
+  exact ⟨ac, tr, hceq, (actrun_proj cls obs ac0 ac tr hrun).2, (actrun_runTrace cls obs ac0 ac tr hrun).1,
+    (actrun_runTrace cls obs ac0 ac tr hrun).2⟩
 
 /-- **No deadlock**: no reachable configuration with unfinished work is stuck — opposite-direction transfers
     included, since no thread ever waits for a lock while holding one. -/
@@ -62,7 +63,7 @@ theorem c05_deadlock_free (cut : Cut) (ac0 : ACfg) (c : Cfg Loc Store)
   deadlock_free_regions (ac0.toRCfg cut) c hs hnf
 
 /-- **Balances never go negative** (and debt, capacities stay non-negative) in any quiescent configuration reached. -/
-theorem c05_nonneg (cls : Classifier) (ac0 ac : ACfg) (hs : Star (ActStep cls) ac0 ac)
+theorem c05_nonneg (cls : Classifier) (obs : Nat → Obs) (ac0 ac : ACfg) (hs : Star (ActStep cls obs) ac0 ac)
     (h0 : ∀ j, (ac0.st j).WF) : ∀ j, (ac.st j).WF := by
   refine actstar_induct (P := fun x => ∀ j, (x.st j).WF) h0 ?_ hs
   intro x y hx hstep j
@@ -71,11 +72,11 @@ theorem c05_nonneg (cls : Classifier) (ac0 ac : ACfg) (hs : Star (ActStep cls) a
     by_cases hj : j = a.lock
     · subst hj
       simp only [upd1, if_true]
-      exact (body_quiet cls a l (st a.lock)).wf (hx a.lock)
+      exact (body_quiet cls obs a l (st a.lock)).wf (hx a.lock)
     · simp only [upd1, hj, if_false]; exact hx j
 
 /-- **Debt stays within the limit** of its store under every interleaving (no interest is applied by these operations). -/
-theorem c05_debt_within_limit (cls : Classifier) (ac0 ac : ACfg) (hs : Star (ActStep cls) ac0 ac)
+theorem c05_debt_within_limit (cls : Classifier) (obs : Nat → Obs) (ac0 ac : ACfg) (hs : Star (ActStep cls obs) ac0 ac)
     (h0 : ∀ j, (ac0.st j).WF ∧ (ac0.st j).debt ≤ (ac0.st j).maxDebt) :
     ∀ j, (ac.st j).debt ≤ (ac.st j).maxDebt := by
   have key : ∀ j, (ac.st j).WF ∧ (ac.st j).debt ≤ (ac.st j).maxDebt := by
@@ -86,7 +87,7 @@ theorem c05_debt_within_limit (cls : Classifier) (ac0 ac : ACfg) (hs : Star (Act
       by_cases hj : j = a.lock
       · subst hj
         simp only [upd1, if_true]
-        have q := body_quiet cls a l (st a.lock)
+        have q := body_quiet cls obs a l (st a.lock)
         have hcfg := q.cfg
         unfold Store.SameCfg at hcfg
         refine ⟨q.wf (hx a.lock).1, ?_⟩
@@ -99,7 +100,7 @@ theorem c05_debt_within_limit (cls : Classifier) (ac0 ac : ACfg) (hs : Star (Act
     plus what it can still pay out never exceeds what it could pay out initially plus the energy that the
     regenerate / deposit actions run so far may have added.  Every successful spend is in `consumed` (C04: a success
     charges exactly its cost), so concurrent spends are all accounted — none is lost and none is served twice. -/
-theorem c05_no_overspend (cls : Classifier) (ac0 ac : ACfg) (hs : Star (ActStep cls) ac0 ac) (j : Nat) :
+theorem c05_no_overspend (cls : Classifier) (obs : Nat → Obs) (ac0 ac : ACfg) (hs : Star (ActStep cls obs) ac0 ac) (j : Nat) :
     pot (ac.st j) + pendingInflow j ac.threads ≤ pot (ac0.st j) + pendingInflow j ac0.threads := by
   refine actstar_induct
     (P := fun x => pot (x.st j) + pendingInflow j x.threads ≤ pot (ac0.st j) + pendingInflow j ac0.threads)
@@ -110,7 +111,7 @@ theorem c05_no_overspend (cls : Classifier) (ac0 ac : ACfg) (hs : Star (ActStep 
     rw [pendingInflow_split] at hx ⊢
     simp only [List.map_cons, List.sum_cons] at hx
     by_cases hj : a.lock = j
-    · have hb := body_pot cls a l (st a.lock) j hj
+    · have hb := body_pot cls obs a l (st a.lock) j hj
       subst hj
       simp only [upd1, if_true]
       omega
@@ -122,11 +123,11 @@ theorem c05_no_overspend (cls : Classifier) (ac0 ac : ACfg) (hs : Star (ActStep 
 
 /-- Corollary in the property's words: the total charged for successful spends on store `j` is bounded by what was
     available (balances plus unused debt limit) plus all regeneration / deposits addressed to `j`. -/
-theorem c05_spends_bounded_by_available (cls : Classifier) (ac0 ac : ACfg) (hs : Star (ActStep cls) ac0 ac) (j : Nat)
+theorem c05_spends_bounded_by_available (cls : Classifier) (obs : Nat → Obs) (ac0 ac : ACfg) (hs : Star (ActStep cls obs) ac0 ac) (j : Nat)
     (h0 : ∀ j, (ac0.st j).WF) :
     (ac.st j).consumed - (ac0.st j).consumed ≤ (ac0.st j).room + pendingInflow j ac0.threads := by
-  have h := c05_no_overspend cls ac0 ac hs j
-  have hwf := c05_nonneg cls ac0 ac hs h0 j
+  have h := c05_no_overspend cls obs ac0 ac hs j
+  have hwf := c05_nonneg cls obs ac0 ac hs h0 j
   have hroom : 0 ≤ (ac.st j).room := by
     unfold Store.room Store.total
     have := hwf.atp; have := hwf.gtp; have := hwf.nadh
@@ -162,7 +163,7 @@ private def st0 : Nat → Store := fun j => if j = 0 then stA else stB
 
 /-- results (T0's returns, T1's returns, final ATP of A and B) of a list of (thread, action) pairs run atomically -/
 private def outcome (tr : List (Nat × Act)) : List Ret × List Ret × Int × Int :=
-  let w := runTrace clsN ⟨st0, fun _ => {}⟩ tr
+  let w := runTrace clsN (fun _ => Obs.silent) ⟨st0, fun _ => {}⟩ tr
   ((w.locs 0).rets, (w.locs 1).rets, (w.st 0).atp, (w.st 1).atp)
 
 /-- **Witness**: T0 = `A.transfer_to(B, 5)`, T1 = `A.consume(5); B.consume(5)` with A = 5, B = 0.  The schedule
@@ -183,7 +184,7 @@ theorem c05_transfer_not_atomic_witness :
 /-! ### Non-vacuity -/
 
 /-- a faithful cut exists (one line per region), and a two-line cut of `consume`-like bodies is faithful too -/
-example (cls : Classifier) : Cut.Faithful cls (fun a => [body cls a]) := fun _ => rfl
+example (cls : Classifier) (obs : Nat → Obs) : Cut.Faithful cls obs (fun a => [body cls obs a]) := fun _ => rfl
 
 /-- a configuration meeting the hypotheses of the invariant theorems: two stores built by the constructor -/
 example : (∀ j, (st0 j).WF ∧ (st0 j).debt ≤ (st0 j).maxDebt) := by
